@@ -67,8 +67,8 @@ CLAIMS.update({
     'C05': dict(level='other', text='P: degenerate inputs (zero rx / zero ry / coincident endpoints, all flags, all coordinates): endpoints kept, points of the straight line, chord length, ordered box; Arc.point_at_t is the conjugate-diameter form hence on the ellipse; radii/rotation readers. NOT proved: the F.6.5 centre/extent computation of Arc._svg_parameterize - its whole-function VC (308 paths, 4436 conditions, nonlinear with sqrt/acos) exceeded every solver budget; it is covered only by the bounded check C05/endpoint_arcs (grid over points, radii ratios 1e-3..1e3, rotations, flags; independent F.6.5 oracle).', note='F.6.5 parameterisation bounded only; floats as reals', technique='deductive verification of kernels (pyvc VCs, z3) + labelled bounded run-time contract checks on the real code', design='5 (C05)', assumptions=['A1', 'A2', 'A3', 'A7']),
     'C06': dict(level='other', text='P: Rect corner-radius decision table (16 cells: absent/zero/small/large per axis), sharp and rounded Rect.segments against SVG 2 10.2 (exact edges, quarter-ellipse corner arcs), zero dimension / negative radius, SimpleLine, Circle/Ellipse four quarter arcs from (cx+rx,cy). P-shape-bounded: Polyline/Polygon for point-list lengths 0,1,2,3,5; segments(True) = matrix image of segments(False) for Rect/rounded Rect/SimpleLine/Polyshape. B: circles, ellipses and rounded rects under 58 matrices (incl. rotation-then-anisotropic-scale and its transpose) sampled against the image of the user-space decomposition (check C05/endpoint_arcs, shape cases).', note='round shapes under reflections with zero diagonal keep the un-mirrored direction (known finding, pinned by a test)', technique='deductive verification of kernels (pyvc VCs, z3) + labelled bounded run-time contract checks on the real code', design='5 (C06)', assumptions=['A1', 'A2', 'A3', 'A5', 'A7']),
     'C07': dict(level='exploration', text='P: for 13 kind sequences (lines, quadratics, cubics, closes, two subpaths) x relative in {None,False,True} x smooth in {None,False,True} x stored flags, Path(p.d(relative, smooth)) has the same kinds and the same points as p for all coordinate values, numerals treated as opaque (A5); the arc command written by Arc.d re-parses to the constructor arguments (end point, radii = lengths of the radius vectors, rotation = direction of the first, flags = extent and direction). B: 2.8k paths from grammar-random strings x 9 (relative, smooth) combinations + subpaths, compared pointwise within the 12-digit format (tolerance stated in the check): this is where the numeral rounding itself is exercised.', note='%-formatting and float() are outside the SMT theories; arc radii printed with 6 digits and Subpath.d without a move are known findings pinned by tests', technique='deductive verification of d() -> parse with opaque numerals (pyvc VCs, z3) + bounded run-time contract on the real code for the 12-digit rounding', design='5 (C07)', assumptions=['A2', 'A5', 'A7']),
-    'C08': dict(level='other', text='P: Line/Close/Move boxes; QuadraticBezier.bbox containment for all t in [0,1], ordering and tightness (every side is an endpoint or the interior extremum); implicit_stroke_width = w*sqrt|det|; zero-extent arc box ordered. P-shape-bounded: Shape.bbox = union of segment boxes grown by half the effective stroke width iff a stroke is painted (transformed x with_stroke x paint cases), Group.union_bbox. CubicBezier._real_minmax (closed-form branch |D| >= 1e-8): containment for all t in [0,1], ordering and tightness, by a modular proof - the cubic is parametrised by its critical points, PathSegment.point enters through its contract with abstract values, and four algebraic lemmas (difference identity, monotone pieces, closed-form roots = critical points, no critical point => monotone) are discharged in the same run. B: near-quadratic cubics (|D| < 1e-8), arcs, groups, use - dense sampling oracle.', note='Arc.bbox and the near-quadratic branch of CubicBezier._real_minmax are bounded-checked only', technique='deductive verification of kernels (pyvc VCs, z3) + labelled bounded run-time contract checks on the real code', design='5 (C08)', assumptions=['A1', 'A2', 'A3', 'A7']),
-    'C09': dict(level='other', text='P (prefix-independence audit as C01): for every command letter x malformed operand window (0..arity-1 numbers, one group plus extras, trailing garbage, z followed by a number) x 4 stored prefixes, with symbolic numbers: parse returns or raises ValueError only, the stored prefix is retained and every retained segment has numeric coordinates. B: 21.7k arbitrary strings (truncations, token edits, non-ASCII, 1e6-character inputs with a linear-time check) on the real code, then d()/bbox()/length()/transform on the result.', note="ASSUMED (not proved): the endpoint-form Arc constructor returns normally for numeric arguments (bounded: C05/endpoint_arcs, C09/arbitrary_strings). Known finding: 'z' with nothing to close stores Close(None,None) (pinned by tests)", technique='deductive verification of kernels (pyvc VCs, z3) + labelled bounded run-time contract checks on the real code', design='5 (parser cluster)', assumptions=['A1', 'A2', 'A5', 'A6', 'A7']),
+    'C08': dict(level='other', text='P: Line/Close/Move boxes; QuadraticBezier.bbox containment for all t in [0,1], ordering and tightness (every side is an endpoint or the interior extremum); implicit_stroke_width = w*sqrt|det|; zero-extent arc box ordered. P-shape-bounded: Shape.bbox = union of segment boxes grown by half the effective stroke width iff a stroke is painted (transformed x with_stroke x paint cases), Group.union_bbox. CubicBezier._real_minmax (closed-form branch |D| >= 1e-8): containment for all t in [0,1], ordering and tightness, by a modular proof - the cubic is parametrised by its critical points, PathSegment.point enters through its contract with abstract values, and four algebraic lemmas (difference identity, monotone pieces, closed-form roots = critical points, no critical point => monotone) are discharged in the same run. B: near-quadratic cubics (|D| < 1e-8), arcs, groups, use - dense sampling oracle.', note='Arc.bbox and the near-quadratic branch of CubicBezier._real_minmax are bounded-checked only; open finding F85: the box of a small cubic far from the origin misses up to 1e-8 of the coordinate magnitude (cancellation), larger misses are violations', technique='deductive verification of kernels (pyvc VCs, z3) + labelled bounded run-time contract checks on the real code', design='5 (C08)', assumptions=['A1', 'A2', 'A3', 'A7']),
+    'C09': dict(level='other', text='P (prefix-independence audit as C01): for every command letter x malformed operand window (0..arity-1 numbers, one group plus extras, trailing garbage, z followed by a number) x 4 stored prefixes, with symbolic numbers: parse returns or raises ValueError only, the stored prefix is retained and every retained segment has numeric coordinates. B: 21.7k arbitrary strings (truncations, token edits, non-ASCII, 1e6-character inputs with a linear-time check) on the real code, then d()/bbox()/length()/transform on the result.', note="ASSUMED (not proved): the endpoint-form Arc constructor returns normally for numeric arguments (bounded: C05/endpoint_arcs, C09/arbitrary_strings). Known findings: 'z' with nothing to close stores Close(None,None) (pinned by tests); F84: a grammar-conforming arc whose lengths differ by more than about 1e150 is rejected with ValueError (thorough tier only)", technique='deductive verification of kernels (pyvc VCs, z3) + labelled bounded run-time contract checks on the real code', design='5 (parser cluster)', assumptions=['A1', 'A2', 'A5', 'A6', 'A7']),
     'C10': dict(level='fault_enumeration', text='Bounded fault enumeration: 40 base documents x every attribute position x malformed-value pools (transforms, colours, lengths, point lists, viewBox, path data, href retargeting incl. cycles): all single faults + sampled pairs/triples; the parse must return a tree and every shape outside the faulty subtree must equal the parse of the document without the faulty element. The reference parse (document without the offending element) runs in a second, independent instance of the library, so state a failed element leaves behind cannot colour the expectation; use chains that run into a cycle they are not part of are included. Kernels (P): Matrix.parse raises ValueError only for every malformed arity; the 96 malformed path-data windows of C09 (retained prefix, ValueError only); and on every explored path of every obligation the frame clause module_level_state_is_not_written (no object created by the module body - class attributes, shared helpers - is written by a function under contract, which is what makes one element unable to influence the next).', note='document-level; 9 defect classes found by this check were repaired (see known_findings.json fixed entries)', technique='bounded fault enumeration on SVG.parse (real code); exceptional postconditions of value parsers proved as kernels', design='5 (document cluster)', assumptions=['A2', 'A7']),
     'C14': dict(level='exploration', text='Bounded: full table of the 128 source subsets {attribute, *, type, .class, type.class, #id, inline} per property on the element, ancestors, use, rule-order permutations, comma lists, comments, currentColor, opacities, display:none, transforms x vector-effect x reify, against spec/cascade.py. Kernel (P): implicit_stroke_width = w*sqrt|det|.', note='document-level; one open finding (two classes on one element, rule order)', technique='bounded run-time contract on SVG.parse against an independent cascade evaluator; stroke-width kernel proved', design='5 (document cluster)', assumptions=['A2', 'A7']),
     'C15': dict(level='other', text='P: Linear.length is the Euclidean distance (0 without start), moves contribute 0, distance is invariant under rotation/reflection/translation/reversal and scales by |s| (lemma), circular arc shortcut radius*angle. P-shape-bounded: Shape.length = sum, fractions, Shape.point walk on a representative path, also from a state whose cache is invalid and holds stale fractions; 12 Path / Subpath mutators (append, insert, extend, setitem, delitem, +=, line, closed, reverse, reify, subpath reverse, subpath *=) leave the cached lengths invalid or consistent and length() afterwards is the sum over the present segments. B: true arc length vs Gauss-Legendre quadrature for all segment kinds and error settings.', note='accuracy of the recursive chord subdivision / quadratic closed form is an open finding (error semantics of segment_length)', technique='deductive verification of kernels (pyvc VCs, z3) + labelled bounded run-time contract checks on the real code', design='5 (C15)', assumptions=['A1', 'A2', 'A3', 'A7']),
